@@ -537,3 +537,246 @@ Section MemoInv.
       exact (mxm_groups_sim _ _ depth IH _ _ _ _ _ W2 (fun kg Hkg => mxm_group_keyok L kg HL Hkg) Em En S2).
   Qed.
 End MemoInv.
+
+(* ---------- mx_from_ast only builds selections that are mxb_ok: no hypothesis on the document ---------- *)
+Lemma mx_from_ast_sel_ok s x : forall ty, Forall (mxb_ok s ty) (mx_from_ast_sel s ty x).
+Proof.
+  induction x as [a n args dirs sub IH|n dirs|c dirs sub IH] using selection_ind_nested; intros ty; cbn [mx_from_ast_sel].
+  - destruct (xv_lookup_field s ty n) as [fd|] eqn:L; [|constructor].
+    set (tn := inner_named_type (fd_ty fd)).
+    assert (Hsub : Forall (mxb_ok s tn) (flat_map (mx_from_ast_sel s tn) sub)).
+    { clear -IH. induction IH as [|y r Hy _ IHr]; cbn [flat_map]; [constructor|]. apply Forall_app. split; [apply Hy|exact IHr]. }
+    assert (Hgen : mxb_leaf_name s tn = false -> Forall (mxb_ok s ty) [MxField a n args dirs fd tn (flat_map (mx_from_ast_sel s tn) sub)]).
+    { intros Hl. constructor; [|constructor]. apply mxb_ok_field. split; [exact L|]. split; [reflexivity|]. split; [|exact Hsub].
+      rewrite Hl. discriminate. }
+    assert (Hleaf : Forall (mxb_ok s ty) (if xv_is_nil sub then [MxField a n args dirs fd tn []] else [])).
+    { destruct (xv_is_nil sub); [|constructor]. constructor; [|constructor]. apply mxb_ok_field.
+      split; [exact L|]. split; [reflexivity|]. split; [reflexivity|constructor]. }
+    unfold mxb_leaf_name in Hgen. destruct (sch_get_type s tn) as [t|]; [|apply Hgen; reflexivity].
+    destruct t; try (apply Hgen; reflexivity); exact Hleaf.
+  - constructor; [exact I|constructor].
+  - assert (Hsub : forall tn, Forall (mxb_ok s tn) (flat_map (mx_from_ast_sel s tn) sub)).
+    { intros tn. clear -IH. induction IH as [|y r Hy _ IHr]; cbn [flat_map]; [constructor|]. apply Forall_app. split; [apply Hy|exact IHr]. }
+    destruct c as [c'|].
+    + destruct (xv_is_some (sch_get_type s c')); [|constructor]. constructor; [|constructor].
+      apply mxb_ok_inline. split; [reflexivity|apply Hsub].
+    + constructor; [|constructor]. apply mxb_ok_inline. split; [reflexivity|apply Hsub].
+Qed.
+
+Lemma mx_from_ast_ok s ty sels : Forall (mxb_ok s ty) (mx_from_ast s ty sels).
+Proof.
+  unfold mx_from_ast. induction sels as [|x r IH]; cbn [flat_map]; [constructor|]. apply Forall_app.
+  split; [apply mx_from_ast_sel_ok|exact IH].
+Qed.
+
+Lemma mx_fragments_ok s : forall fr acc, mxb_frags_ok s acc -> mxb_frags_ok s (mx_fragments s fr acc).
+Proof.
+  induction fr as [|[k f] r IH]; intros acc Hacc; cbn [mx_fragments]; [exact Hacc|].
+  destruct (xv_is_some (xv_assoc k acc)) eqn:Ek; [apply IH; exact Hacc|].
+  destruct (xv_is_some (sch_get_type s (xv_frag_cond f))); [|apply IH; exact Hacc].
+  apply IH. intros n ty sels. rewrite xv_assoc_app. destruct (xv_assoc n acc) as [v|] eqn:En.
+  - intros [= ->]. exact (Hacc n ty sels En).
+  - cbn [xv_assoc]. destruct (streq n k); [|discriminate]. intros [= <- <-]. apply mx_from_ast_ok.
+Qed.
+
+Lemma mx_fragments_ok_nil s fr : mxb_frags_ok s (mx_fragments s fr []).
+Proof. apply mx_fragments_ok. intros n ty sels. discriminate. Qed.
+
+(* the walk without guards depends on its parts pointwise *)
+Lemma mxn_fold_ext {A} (f g : mxn_st -> A -> option mxn_st) l : (forall st x, f st x = g st x) ->
+  forall st, mxn_fold f st l = mxn_fold g st l.
+Proof.
+  intros H. induction l as [|x l IH]; intros st; cbn [mxn_fold]; [reflexivity|]. rewrite H.
+  destruct (g st x); [apply IH|reflexivity].
+Qed.
+
+Lemma mxn_walk_ext parts parts' rel frags : (forall L, parts L = parts' L) ->
+  forall fuel depth st L, mxn_walk parts rel frags fuel depth st L = mxn_walk parts' rel frags fuel depth st L.
+Proof.
+  intros H. induction fuel as [|fuel IH]; intros depth st L; cbn [mxn_walk]; [reflexivity|]. rewrite H.
+  apply mxn_fold_ext. intros st0 g. unfold mxn_step. destruct (mx_nested_sets g); [reflexivity|].
+  destruct (mx_expand frags (m :: l)); [|reflexivity].
+  destruct (mxn_enter (mxn_and_ok st0 (mx_first_vs_rest rel g)) depth) as [st1 reached]. destruct reached; [reflexivity|apply IH].
+Qed.
+
+Section MemoDoc.
+  Variable s : schema.
+  Variable frags : list (str * mx_set).
+  Hypothesis Hfrags : mxb_frags_ok s frags.
+
+  Notation shape := (mx_same_output_type_shape s).
+  Notation nameargs := mx_same_name_and_arguments.
+  Notation limit := mx_field_depth_limit.
+  Notation gbcp := (mx_group_by_common_parents s).
+
+  Lemma mxd_pre_none_ok : forall st g, mxk_wf s st -> mxk_keyok s g ->
+    mxk_wf s (mxm_pre_none st g) /\ mx_ok (mxm_pre_none st g) = mx_ok st /\ mx_high (mxm_pre_none st g) = mx_high st /\
+    forall K, mxk_flags (mxm_pre_none st g) K = mxk_flags st K.
+  Proof. intros st g Hwf _. unfold mxm_pre_none. auto. Qed.
+
+  Lemma mxd_pre_lookup_ok : forall st g, mxk_wf s st -> mxk_keyok s g ->
+    mxk_wf s (mxm_pre_lookup st g) /\ mx_ok (mxm_pre_lookup st g) = mx_ok st /\
+    mx_high (mxm_pre_lookup st g) = mx_high st /\ forall K, mxk_flags (mxm_pre_lookup st g) K = mxk_flags st K.
+  Proof.
+    intros st g Hwf Hg. unfold mxm_pre_lookup. destruct (mx_lookup st g) as [st1 e] eqn:E. cbn [fst].
+    destruct (mxk_lookup s st g st1 e Hwf Hg E) as (W & O & H & _ & _ & F). auto.
+  Qed.
+
+  Lemma mxd_one_incl : forall (g pg : list mx_fs) (x : mx_fs), In pg (mxm_one g) -> In x pg -> In x g.
+  Proof. intros g pg x [<-|[]] Hx. exact Hx. Qed.
+
+  Lemma mxd_gbcp_incl : forall (g pg : list mx_fs) (x : mx_fs), In pg (gbcp g) -> In x pg -> In x g.
+  Proof. intros g pg x. apply gbcp_incl. Qed.
+
+  Definition mxd_walk_s := mxm_walk me_shape_done mxm_set_shape mxm_pre_none mxm_one shape frags.
+  Definition mxd_walk_p := mxm_walk me_parents_done mxm_set_parents mxm_pre_lookup gbcp nameargs frags.
+
+  Lemma mxd_shape_inv fuel : mxm_rec_ok s frags fst snd mxm_one shape (mxd_walk_s fuel).
+  Proof.
+    apply (mxm_walk_inv s frags Hfrags fst snd me_shape_done mxm_set_shape); try (intros e; reflexivity);
+      [exact mxd_pre_none_ok|exact mxd_one_incl].
+  Qed.
+  Lemma mxd_parents_inv fuel : mxm_rec_ok s frags snd fst gbcp nameargs (mxd_walk_p fuel).
+  Proof.
+    apply (mxm_walk_inv s frags Hfrags snd fst me_parents_done mxm_set_parents); try (intros e; reflexivity);
+      [exact mxd_pre_lookup_ok|exact mxd_gbcp_incl].
+  Qed.
+  Lemma mxd_shape_sim fuel : mxm_rec_sim s (mxd_walk_s fuel) (mxn_walk (mxm_parts mxm_one) shape frags fuel).
+  Proof.
+    apply (mxm_walk_sim s frags Hfrags fst snd me_shape_done mxm_set_shape); try (intros e; reflexivity);
+      [exact mxd_pre_none_ok|exact mxd_one_incl].
+  Qed.
+  Lemma mxd_parents_sim fuel : mxm_rec_sim s (mxd_walk_p fuel) (mxn_walk (mxm_parts gbcp) nameargs frags fuel).
+  Proof.
+    apply (mxm_walk_sim s frags Hfrags snd fst me_parents_done mxm_set_parents); try (intros e; reflexivity);
+      [exact mxd_pre_lookup_ok|exact mxd_gbcp_incl].
+  Qed.
+
+  Definition mxd_inv_s (st : mx_state) : Prop := mxm_inv s frags fst mxm_one shape st [].
+  Definition mxd_inv_p (st : mx_state) : Prop := mxm_inv s frags snd gbcp nameargs st [].
+  (* between operations: keys are fine, every marked set of either pass is closed, and ok implies within the limit *)
+  Definition mxd_J (st : mx_state) : Prop :=
+    mxk_wf s st /\ mxd_inv_s st /\ mxd_inv_p st /\ (mx_ok st = true -> (mx_high st <= limit)%nat).
+
+  (* the state moved on without touching the guards of a pass: its invariant stays *)
+  Lemma mxd_inv_transfer sel subparts rel :
+    (forall (g pg : list mx_fs) (x : mx_fs), In pg (subparts g) -> In x pg -> In x g) ->
+    forall st st', (mx_ok st' = true -> mx_ok st = true) -> (mx_high st <= mx_high st')%nat ->
+    (forall K, mxk_keyok s K -> sel (mxk_flags st' K) = sel (mxk_flags st K)) ->
+    mxm_inv s frags sel subparts rel st [] -> mxm_inv s frags sel subparts rel st' [].
+  Proof.
+    intros Hincl st st' H1 H2 Hsame Hinv K HK Hmk. unfold mxm_marked in Hmk. rewrite (Hsame K HK) in Hmk.
+    destruct (Hinv K HK Hmk) as [[]|Hc]. right. intros Hok Hhi.
+    destruct (Hc (H1 Hok) ltac:(lia)) as [Hl Hch]. split; [exact Hl|]. intros M HM.
+    assert (HMk : mxk_keyok s M).
+    { destruct HM as (kg & g & Hkg & Hg & _ & Ex). apply (mxm_expand_keyok s frags Hfrags g M); [|exact Ex].
+      intros f Hf. destruct kg as [k g0]. cbn [snd] in Hg. rewrite (gbon_in _ _ _ Hkg) in Hg.
+      assert (Hf0 : In f (filter (fun f0 => streq k (mx_response_key f0)) K)) by (eapply Hincl; eassumption).
+      apply filter_In in Hf0. apply HK. apply Hf0. }
+    unfold mxm_marked. rewrite (Hsame M HMk). apply Hch. exact HM.
+  Qed.
+
+  Lemma mxd_root_keyok (root : mx_set) fields : Forall (mxb_ok s (fst root)) (snd root) -> mx_expand frags [root] = Some fields ->
+    mxk_keyok s fields.
+  Proof.
+    intros Hroot Ex f Hf. apply (mxe_expand_coll frags _ _ Ex) in Hf. destruct Hf as (ty & sels & R & Hin).
+    assert (Hok : Forall (mxb_ok s ty) sels).
+    { apply (mxm_reach_ok s frags Hfrags [root]); [|exact R]. intros ty0 sels0 [E|[]]. subst root. exact Hroot. }
+    apply mxe_fields_in in Hin. destruct Hin as (a & n & args & dirs & def & sty & sub & Hx & ->).
+    rewrite Forall_forall in Hok. specialize (Hok _ Hx). apply mxb_ok_field in Hok. exact Hok.
+  Qed.
+
+  (* ---------- one operation, with the guards ---------- *)
+  Lemma mxd_validate_inv st (root : mx_set) st' : Forall (mxb_ok s (fst root)) (snd root) -> mxd_J st ->
+    mx_validate_operation s frags st root = Some st' ->
+    mxd_J st' /\ (mx_ok st' = true -> mx_ok st = true) /\
+    (forall K, mxk_keyok s K -> mxm_marked fst st K -> mxm_marked fst st' K) /\
+    (forall K, mxk_keyok s K -> mxm_marked snd st K -> mxm_marked snd st' K) /\
+    exists fields, mx_expand frags [root] = Some fields /\ mxk_keyok s fields /\
+                   mxm_marked fst st' fields /\ mxm_marked snd st' fields.
+  Proof.
+    intros Hroot (Hwf & Is & Ip & Hq). unfold mx_validate_operation.
+    destruct (mx_expand frags [root]) as [fields|] eqn:Ex; [|discriminate].
+    pose proof (mxd_root_keyok root fields Hroot Ex) as Hk.
+    rewrite mx_shape_walk. fold (mxd_walk_s mx_fuel).
+    destruct (mxd_walk_s mx_fuel 0 st fields) as [st1|] eqn:E1; [|discriminate].
+    rewrite mx_parents_walk. fold (mxd_walk_p mx_fuel).
+    destruct (mxd_walk_p mx_fuel 0 st1 fields) as [st2|] eqn:E2; [|discriminate].
+    intros [= <-].
+    destruct (mxd_shape_inv mx_fuel 0%nat st fields st1 [] E1 Hwf Hk Is) as (W1 & (A1 & A2 & A3 & A4) & Mk1 & Is1).
+    assert (Ip1 : mxd_inv_p st1) by (apply (mxd_inv_transfer snd gbcp nameargs mxd_gbcp_incl st st1 A1 A2 A4 Ip)).
+    destruct (mxd_parents_inv mx_fuel 0%nat st1 fields st2 [] E2 W1 Hk Ip1) as (W2 & (B1 & B2 & B3 & B4) & Mk2 & Ip2).
+    assert (Is2 : mxd_inv_s st2) by (apply (mxd_inv_transfer fst mxm_one shape mxd_one_incl st1 st2 B1 B2 B4 Is1)).
+    set (c := negb (Nat.ltb limit (mx_high st2))).
+    assert (Hsame : forall K, mxk_flags (mx_and_ok st2 c) K = mxk_flags st2 K) by reflexivity.
+    assert (Hok' : mx_ok (mx_and_ok st2 c) = true -> mx_ok st2 = true /\ c = true) by (cbn; intros H; apply andb_true_iff in H; exact H).
+    split.
+    - split; [exact W2|]. split; [|split].
+      + apply (mxd_inv_transfer fst mxm_one shape mxd_one_incl st2 _); [intros H; apply Hok'; exact H|cbn; lia| |exact Is2].
+        intros K _. rewrite Hsame. reflexivity.
+      + apply (mxd_inv_transfer snd gbcp nameargs mxd_gbcp_incl st2 _); [intros H; apply Hok'; exact H|cbn; lia| |exact Ip2].
+        intros K _. rewrite Hsame. reflexivity.
+      + intros H. destruct (Hok' H) as [_ Hc]. unfold c in Hc. apply negb_true_iff in Hc. apply Nat.ltb_ge in Hc. exact Hc.
+    - split; [intros H; apply A1; apply B1; apply Hok'; exact H|]. split; [|split].
+      + intros K HK Hm. unfold mxm_marked. rewrite Hsame, (B4 K HK). apply A3; assumption.
+      + intros K HK Hm. unfold mxm_marked. rewrite Hsame. apply B3; [exact HK|]. unfold mxm_marked. rewrite (A4 K HK). exact Hm.
+      + exists fields. split; [reflexivity|]. split; [exact Hk|]. split.
+        * unfold mxm_marked. rewrite Hsame, (B4 fields Hk). exact Mk1.
+        * unfold mxm_marked. rewrite Hsame. exact Mk2.
+  Qed.
+
+  Lemma mxd_validate_sim stm stn (root : mx_set) stm' stn' : Forall (mxb_ok s (fst root)) (snd root) -> mxk_wf s stm ->
+    mx_validate_operation s frags stm root = Some stm' -> mxn_validate_operation s frags stn root = Some stn' ->
+    mxm_sim stm stn -> mxk_wf s stm' /\ mxm_sim stm' stn'.
+  Proof.
+    intros Hroot Hwf. unfold mx_validate_operation, mxn_validate_operation.
+    destruct (mx_expand frags [root]) as [fields|] eqn:Ex; [|discriminate].
+    pose proof (mxd_root_keyok root fields Hroot Ex) as Hk.
+    rewrite mx_shape_walk, mxn_shape_walk. fold (mxd_walk_s mx_fuel).
+    rewrite (mxn_walk_ext mxn_shape_parts (mxm_parts mxm_one)) by (intros L; symmetry; apply mxm_parts_shape).
+    destruct (mxd_walk_s mx_fuel 0 stm fields) as [sm1|] eqn:Em1; [|discriminate].
+    destruct (mxn_walk (mxm_parts mxm_one) shape frags mx_fuel 0 stn fields) as [sn1|] eqn:En1; [|discriminate].
+    rewrite mx_parents_walk, mxn_parents_walk. fold (mxd_walk_p mx_fuel).
+    change (mxn_parents_parts s) with (mxm_parts gbcp).
+    destruct (mxd_walk_p mx_fuel 0 sm1 fields) as [sm2|] eqn:Em2; [|discriminate].
+    destruct (mxn_walk (mxm_parts gbcp) nameargs frags mx_fuel 0 sn1 fields) as [sn2|] eqn:En2; [|discriminate].
+    intros [= <-] [= <-] Hsim.
+    destruct (mxd_shape_sim mx_fuel 0%nat stm stn fields sm1 sn1 Hwf Hk Em1 En1 Hsim) as [W1 S1].
+    destruct (mxd_parents_sim mx_fuel 0%nat sm1 sn1 fields sm2 sn2 W1 Hk Em2 En2 S1) as [W2 [S2a S2b]].
+    split; [exact W2|]. split.
+    - cbn [mx_ok mx_high mx_and_ok mxn_and_ok fst snd]. intros H. apply andb_true_iff in H. destruct H as [H1 H2].
+      rewrite (S2a H1). cbn [andb].
+      apply negb_true_iff in H2. apply Nat.ltb_ge in H2. apply negb_true_iff. apply Nat.ltb_ge. lia.
+    - exact S2b.
+  Qed.
+
+  Lemma mxd_validate_some st (root : mx_set) : mx_validate_operation s frags st root <> None.
+  Proof.
+    unfold mx_validate_operation. destruct (mx_expand frags [root]) as [fields|] eqn:Ex; [|exfalso; exact (mx_expand_some _ _ Ex)].
+    rewrite mx_shape_walk.
+    destruct (mxm_walk me_shape_done mxm_set_shape mxm_pre_none mxm_one shape frags mx_fuel 0 st fields) as [st1|] eqn:E1.
+    - rewrite mx_parents_walk.
+      destruct (mxm_walk me_parents_done mxm_set_parents mxm_pre_lookup gbcp nameargs frags mx_fuel 0 st1 fields) as [st2|] eqn:E2;
+        [discriminate|].
+      exfalso. revert E2. apply mxm_walk_some; unfold mx_fuel, mx_field_depth_limit; lia.
+    - exfalso. revert E1. apply mxm_walk_some; unfold mx_fuel, mx_field_depth_limit; lia.
+  Qed.
+
+  (* ---------- one operation without the guards, seen from a final state of the run with guards ---------- *)
+  Lemma mxd_validate_closure stf (root : mx_set) fields stn stn' :
+    mx_ok stf = true -> mxd_J stf -> mx_expand frags [root] = Some fields -> mxk_keyok s fields ->
+    mxm_marked fst stf fields -> mxm_marked snd stf fields ->
+    mxn_validate_operation s frags stn root = Some stn' -> (snd stn' <= limit)%nat -> fst stn' = fst stn.
+  Proof.
+    intros Hok (Hwf & Is & Ip & Hq) Ex Hk Ms Mp. unfold mxn_validate_operation. rewrite Ex.
+    rewrite mxn_shape_walk, (mxn_walk_ext mxn_shape_parts (mxm_parts mxm_one)) by (intros L; symmetry; apply mxm_parts_shape).
+    destruct (mxn_walk (mxm_parts mxm_one) shape frags mx_fuel 0 stn fields) as [sn1|] eqn:En1; [|discriminate].
+    rewrite mxn_parents_walk. change (mxn_parents_parts s) with (mxm_parts gbcp).
+    destruct (mxn_walk (mxm_parts gbcp) nameargs frags mx_fuel 0 sn1 fields) as [sn2|] eqn:En2; [|discriminate].
+    intros [= <-]. cbn [mxn_and_ok fst snd]. intros Hlim.
+    destruct (mxn_walk_mono _ _ _ _ _ _ _ _ En2) as [_ Hhi2].
+    rewrite (proj2 (Nat.ltb_ge _ _) Hlim). cbn [negb]. rewrite andb_true_r.
+    rewrite (mxm_closure s frags Hfrags snd gbcp mxd_gbcp_incl nameargs stf Hok (Hq Hok) Ip mx_fuel 0%nat sn1 fields sn2 Hk Mp En2 Hlim).
+    apply (mxm_closure s frags Hfrags fst mxm_one mxd_one_incl shape stf Hok (Hq Hok) Is mx_fuel 0%nat stn fields sn1 Hk Ms En1). lia.
+  Qed.
+End MemoDoc.
